@@ -327,6 +327,16 @@ theorem C08_init_fail (il : List Log) (e : Exn) :
     rw [read_logs_err]; rfl
   rw [this]; exact delivered_refl _
 
+/-- the extractor found, at every stream site, the code that makes `processStep` / `initFailItems` above the right model:
+the failed call's log batches (resp. the sink's buffered init logs) are written BEFORE the error batch — `_serve_stream`
+(step, init), `_run_http_producer_turn`, `_run_http_exchange_turn`, `_run_stream_init_sync`, via `_flush_collector_logs`
+= every collector batch except the data batch, in order -/
+theorem failing_call_flush_recognised :
+    VgiVerif.Gen.LogDispatch.flushLogsHelperRecognised = true ∧
+    VgiVerif.Gen.LogDispatch.pipeStepKeepsLogs = true ∧ VgiVerif.Gen.LogDispatch.pipeInitKeepsLogs = true ∧
+    VgiVerif.Gen.LogDispatch.httpProducerKeepsLogs = true ∧ VgiVerif.Gen.LogDispatch.httpExchangeKeepsLogs = true ∧
+    VgiVerif.Gen.LogDispatch.httpInitKeepsLogs = true := by decide
+
 /-- the spec's emitted sequence is the Engine's `Sem.producer` with `keepFailLogs = true` (the property as stated) -/
 theorem emittedProducer_eq_sem (steps : List Step) : emittedProducer steps = Sem.producer true steps := by
   induction steps with
